@@ -279,12 +279,14 @@ def run_history(rec, ops, seed, scratch):
         meta[idk] = new_id + ("#" if op["hash"] else "")
         with warnings.catch_warnings():
             warnings.simplefilter("ignore")
+            # a later registration may reuse a version NAME that is already taken: it is still selectable by its own id
+            vname = "vf-%d-%d" % (seed, n) if not op.get("reuse_name") else "vf-%d-shared" % seed
             if op["how"] == "create_version":
-                C = validators.create(meta_schema=meta, validators=base.VALIDATORS, version="vf-%d-%d" % (seed, n),
+                C = validators.create(meta_schema=meta, validators=base.VALIDATORS, version=vname,
                                       type_checker=base.TYPE_CHECKER, id_of=base.ID_OF)
             else:
                 C = validators.create(meta_schema=meta, validators=base.VALIDATORS, type_checker=base.TYPE_CHECKER, id_of=base.ID_OF)
-                C = validators.validates("vf-%d-%d" % (seed, n))(C)
+                C = validators.validates(vname)(C)
         registered[new_id] = C
         history.append(op)
         rec.count("registrations")
@@ -306,7 +308,8 @@ def run(ctx):
     from vf.props.c18 import fork_run
     rng = ctx.rng
     for i in range(ctx.scale(8, 200)):
-        ops = [{"base": rng.choice(impl.DRAFTS), "how": rng.choice(["create_version", "validates"]), "hash": rng.random() < 0.5}
+        ops = [{"base": rng.choice(impl.DRAFTS), "how": rng.choice(["create_version", "validates"]), "hash": rng.random() < 0.5,
+                "reuse_name": rng.random() < 0.4}
                for _ in range(rng.choice([0, 1, 2, 3, 5]))]
         hseed = rng.randrange(10 ** 6)
         st, res = fork_run(lambda: child(ctx.tier, ctx.seed, ctx.shard, ctx.nshards, ops, hseed))
